@@ -16,7 +16,8 @@ RULE = (
     "counts, 0-5 synapses of two types, HH/Leak on drawn compartment subsets and named groups; then a selection chain "
     "(cell/branch/comp with int, list, numpy array, range, slice, boolean mask or 'all' indices; loc; select(nodes)/"
     "select(edges); group, channel-name and synapse-type views; edge(); scope switches; lazy [] and iteration), each "
-    "index drawn from the indices that exist at that point (sometimes a missing one); finally one mutating call through "
+    "index drawn from the indices that exist at that point (sometimes a missing one); before a step another view may be derived "
+    "from the same intermediate view object and discarded (scope(), loc(), comp('all')), which must not affect the chain; finally one mutating call through "
     "the view (set, insert, record, stimulate, clamp, add_to_group, move). Oracle: set model R5 for the node and edge "
     "rows and the three local index columns after every chain, and a frame condition (diff of all public tables equals "
     "the expected rows x columns) after the mutation. One evaluation per chain and per mutation. Non-trivial: chain "
@@ -316,6 +317,9 @@ def _mutation(draw, spec):
 def _spec(draw, tier):
     spec = draw(_module(tier))
     spec["chain"] = draw(_chain(spec))
+    # views are values: deriving another view from an intermediate view (and discarding it) must not change
+    # what later selections made from that same view object denote
+    spec["side"] = [draw(st.sampled_from([None, None, "scope_global", "scope_local", "loc0", "comp_all"])) for _ in spec["chain"]]
     spec["mutation"] = draw(_mutation(spec))
     return spec
 
@@ -355,10 +359,24 @@ def build(spec):
     return m
 
 
-def apply_chain(m, chain):
+def apply_chain(m, chain, side=None):
     v = m
-    for op in chain:
+    for pos, op in enumerate(chain):
         k = op[0]
+        sd = side[pos] if side and pos < len(side) else None
+        if sd is not None and v is not m:
+            # derive and discard another view from the SAME view object first
+            try:
+                if sd == "scope_global":
+                    v.scope("global")
+                elif sd == "scope_local":
+                    v.scope("local")
+                elif sd == "loc0":
+                    v.loc(0.0)
+                elif sd == "comp_all":
+                    v.comp("all")
+            except Exception:  # noqa: BLE001 - the side derivation itself is not judged
+                pass
         if k in ("cell", "branch", "comp"):
             v = getattr(v, k)(idx_to_py(op[1]))
         elif k == "scope":
@@ -444,8 +462,10 @@ def judge(spec, tier="quick"):
     m = res
     mview, cands = model_chain(spec)
     base = mview.base
-    view, err = core.call(apply_chain, m, spec["chain"])
+    view, err = core.call(apply_chain, m, spec["chain"], spec.get("side"))
     out.evals += 1
+    if any(spec.get("side") or []):
+        out.classes.append("side derivation from an intermediate view")
     differs = any(base.rows[i][2] != li[2] or base.rows[i][1] != li[1] for i, li in root_view(spec).local_indices().items())
     if len([op for op in spec["chain"] if op[0] != "scope"]) >= 2 and differs:
         out.nontrivial_keys.append(core.h([spec["cells"], spec["edges"], spec["chain"]]))
